@@ -48,6 +48,14 @@ def modes(quick):
          Mode("d-badformat-2", ["-d"], dec=True, nf=2, inputs=["badformat", "good"]),
          Mode("d-force", ["-df"], dec=True, force=True),
          Mode("d-nosync", ["-d", "--no-sync"], dec=True, nosync=True, big=True)]
+    if not quick:
+        # the same modes with the other coder (-T1: single-threaded encoder / direct decoder path; -T4: threaded)
+        import copy
+        for m in list(M):
+            o = copy.copy(m)
+            o.threads = 1 if m.threads == 4 else 4
+            o.name = m.name + ("-t1" if m.threads == 4 else "-t4")
+            M.append(o)
     return M
 
 # ------------------------------------------------------------------ scratch directories
